@@ -47,7 +47,11 @@ type World struct {
 	// Quota gives directories that sit on a small file system: the files
 	// below such a directory can hold that many bytes together, a write
 	// that needs more is cut short with ENOSPC. Creating files still works.
-	Quota    map[string]int
+	Quota map[string]int
+	// Sched, if set, is called at the start of every operation with the
+	// process that issues it: a cooperative scheduler parks the calling
+	// goroutine there until it is that process's turn again.
+	Sched    func(p *Proc)
 	Files    map[string]*Inode
 	Dirs     map[string]bool
 	ReadOnly map[string]bool // directories in which nothing can be created
